@@ -488,3 +488,39 @@ Example kwargs_rename_nonvacuous :
   /\ option_map kw_url (get_kwargs [] 5 ex_ep ex_args) = Some [47;97;47;55]
   /\ pa_py (hd {| pa_name := []; pa_py := []; pa_req := true; pa_kind := KStr |} (ep_query (ren_endpoint ex_rho [] ex_ep))) = [104;101;97;100;101;114;115].
 Proof. repeat split; vm_compute; reflexivity. Qed.
+
+(* ================================================================== (d) spellings that differ from a template identifier only by what
+   python_identifier strips or folds: leading / trailing underscores, a leading space or dash, a trailing dash, letter case.
+   s_field is the default field_prefix. *)
+Definition s_field : str := [102;105;101;108;100;95].
+Definition spelling_ok (sn : str * str) : bool :=
+  let s := fst sn in let N := snd sn in
+  let r := python_identifier s s_field false in
+  if is_reserved r then false
+  else if starts_us s && str_eqb r N then false
+  else if mem_str r template_idents then starts_us N || str_eqb r (python_identifier N s_field false) else true.
+
+Lemma spelling_facts : forallb spelling_ok spelling_names = true.
+Proof. vm_cast_no_check (eq_refl true). Qed.
+
+(* for every regenerated (spelling s, template identifier N): the python name of s is never a keyword / reserved word (the trailing
+   underscore applies); a spelling that starts with an underscore never becomes N (the field_ prefix applies, because the test looks at
+   the RAW value); and a spelling can only land on a template identifier by being one more spelling of N itself (same python name as N) *)
+Theorem spelling_avoids : forall s N, In (s, N) spelling_names ->
+  let r := python_identifier s s_field false in
+  is_reserved r = false /\
+  (starts_us s = true -> r <> N) /\
+  (starts_us N = false -> In r template_idents -> r = python_identifier N s_field false).
+Proof.
+  intros s N Hin r. pose proof spelling_facts as H. rewrite forallb_forall in H. specialize (H _ Hin).
+  unfold spelling_ok in H. cbn [fst snd] in H. fold r in H.
+  destruct (is_reserved r) eqn:Er; [discriminate H|]. split; [reflexivity|].
+  destruct (starts_us s && str_eqb r N) eqn:Eu; [discriminate H|]. split.
+  - intros Hs Heq. rewrite Hs in Eu. cbn [andb] in Eu. rewrite Heq, str_eqb_refl in Eu. discriminate.
+  - intros HN Hmem. apply mem_str_In in Hmem. rewrite Hmem, HN in H. cbn [orb] in H. now apply str_eqb_eq.
+Qed.
+
+Example spelling_names_nontrivial :
+  (500 <=? N.of_nat (length spelling_names)) = true /\ existsb (fun sn => starts_us (fst sn)) spelling_names = true
+  /\ python_identifier [95;98;111;100;121] s_field false = [102;105;101;108;100;95;98;111;100;121].    (* _body -> field_body *)
+Proof. repeat split; vm_compute; reflexivity. Qed.
